@@ -120,5 +120,17 @@ pub fn programs(r: &mut Rng) -> Vec<Feat> {
     out.push(Feat { name: "field-defaults",
         incan: format!("model V:\n    major: int = {b}\n    minor: int\n    label: str = \"rc\"\n\nclass S:\n    n: int = {a}\n    on: bool = True\n\n    def total(self) -> int:\n        return self.n + 1\n\ndef main() -> None:\n    v = V(minor={c})\n    w = V(major=9, minor={c}, label=\"x\")\n    print(v.major)\n    print(v.minor)\n    print(v.label)\n    print(w.major)\n    print(w.label)\n    s = S()\n    print(s.n)\n    print(s.on)\n    print(s.total())\n    t = S(n=5)\n    print(t.n)\n    print(t.on)\n"),
         python: format!("{PY_PRELUDE}class V:\n    def __init__(self, minor, major={b}, label='rc'):\n        self.major = major; self.minor = minor; self.label = label\n\nclass S:\n    def __init__(self, n={a}, on=True):\n        self.n = n; self.on = on\n    def total(self):\n        return self.n + 1\n\nv = V(minor={c})\nw = V(major=9, minor={c}, label='x')\nshow(v.major)\nshow(v.minor)\nshow(v.label)\nshow(w.major)\nshow(w.label)\ns = S()\nshow(s.n)\nshow(s.on)\nshow(s.total())\nt = S(n=5)\nshow(t.n)\nshow(t.on)\n") });
+    // 21. the ends of the 64-bit range through `%` and `//` (operands arrive through parameters: nothing is folded)
+    out.push(Feat { name: "int-boundary-arithmetic",
+        incan: format!("def m(a: int, b: int) -> int:\n    return a % b\n\ndef d(a: int, b: int) -> int:\n    return a // b\n\ndef main() -> None:\n    lo = -9223372036854775807 - 1\n    hi = 9223372036854775807\n    print(m(lo, -1))\n    print(m(lo, 2))\n    print(m(hi, -1))\n    print(d(hi, -1))\n    print(m(lo, hi))\n    print(d(lo, hi))\n    print(m(hi, lo))\n    print(d(hi, lo))\n    print(d(lo, 2))\n    print(m(lo, {b}))\n    print(d(lo, {b}))\n    print(m({a}, {b}))\n"),
+        python: format!("{PY_PRELUDE}lo = -9223372036854775807 - 1\nhi = 9223372036854775807\nshow(lo % -1)\nshow(lo % 2)\nshow(hi % -1)\nshow(hi // -1)\nshow(lo % hi)\nshow(lo // hi)\nshow(hi % lo)\nshow(hi // lo)\nshow(lo // 2)\nshow(lo % {b})\nshow(lo // {b})\nshow({a} % {b})\n") });
+    // 22. comprehensions whose element is not the loop variable and whose filter looks at the loop variable
+    out.push(Feat { name: "comprehension-filter-map",
+        incan: format!("def main() -> None:\n    xs = [3, {a}, 4, {b}, -5, {c}]\n    p = [x + 1 for x in range(6) if x % 2 == 0]\n    q = [x * 10 for x in range(1, 8) if x < 4]\n    r = [x - {b} for x in xs if x > 0]\n    s = [x * x for x in range(-3, 4) if x * x > 2]\n    t = [x + 100 for x in xs]\n    print(len(p))\n    for v in p:\n        print(v)\n    print(len(q))\n    for v in q:\n        print(v)\n    print(len(r))\n    for v in r:\n        print(v)\n    print(len(s))\n    for v in s:\n        print(v)\n    print(t[0] + t[-1])\n"),
+        python: format!("{PY_PRELUDE}xs = [3, {a}, 4, {b}, -5, {c}]\np = [x + 1 for x in range(6) if x % 2 == 0]\nq = [x * 10 for x in range(1, 8) if x < 4]\nr = [x - {b} for x in xs if x > 0]\ns = [x * x for x in range(-3, 4) if x * x > 2]\nt = [x + 100 for x in xs]\nfor l in (p, q, r, s):\n    show(len(l))\n    for v in l:\n        show(v)\nshow(t[0] + t[-1])\n") });
+    // 23. fields handed to functions (strings, lists, through self and through a nested model), the owner used again
+    out.push(Feat { name: "field-arguments",
+        incan: format!("def shout(s: str) -> str:\n    return s.upper()\n\ndef total(xs: List[int]) -> int:\n    mut t = 0\n    for x in xs:\n        t += x\n    return t\n\nmodel Bag:\n    items: List[int]\n    label: str\n\nclass Pet:\n    owner: str\n    bag: Bag\n\n    def call(self) -> str:\n        return shout(self.owner)\n\n    def weight(self) -> int:\n        return total(self.bag.items)\n\ndef main() -> None:\n    b = Bag(items=[{a}, {b}, {c}], label=\"{w}\")\n    print(total(b.items))\n    print(total(b.items))\n    print(len(b.items))\n    print(shout(b.label))\n    print(b.label)\n    p = Pet(owner=\"ann\", bag=b)\n    print(p.call())\n    print(p.call())\n    print(p.weight())\n    print(p.owner)\n"),
+        python: format!("{PY_PRELUDE}items = [{a}, {b}, {c}]\nlabel = \"{w}\"\nshow(sum(items))\nshow(sum(items))\nshow(len(items))\nshow(label.upper())\nshow(label)\nshow('ANN')\nshow('ANN')\nshow(sum(items))\nshow('ann')\n") });
     out
 }
